@@ -10,7 +10,7 @@ open Model
 def obligations : List Lean.Name := [
   ``Model.firstDay_spec, ``Model.days_spec, ``Model.daysInMonth_spec,
   ``Model.index_first, ``Model.index_succ, ``Model.indexInYear_first, ``Model.indexInYear_succ,
-  ``Model.weeksOfMonth_eq_last_index, ``Model.monthWeeks_length, ``Model.monthDays_spec, ``Model.oct1582_21,
+  ``Model.weeksOfMonth_eq_last_index_partial, ``Model.weeksOfMonth_eq_last_index_1582, ``Model.index_succ_1582, ``Model.monthWeeks_length, ``Model.monthDays_spec, ``Model.oct1582_21,
   ``Model.seasonMonths_spec, ``Model.halfYearMonths_spec, ``Model.yearMonths_spec,
   ``Model.nextYm_total, ``Model.nextYm_add, ``Model.nextYm_inv, ``Model.seasonNext_inv, ``Model.halfYearNext_inv,
   ``Model.week_next_plain, ``Model.week_next_plain_inv,
